@@ -30,7 +30,7 @@ func c06Alphabet() []c06Sym {
 	return []c06Sym{
 		{"A", `{"t":{"$date":"2024-05-01T10:00:00.123+00:00"},"s":"I","c":"COMMAND","id":51803,"ctx":"conn7","msg":"Slow query","attr":{"type":"command","ns":"shop.orders","command":{"find":"orders","filter":{"email":"alice@example.com","n":{"$gt":41}},"$db":"shop"},"planSummary":"IXSCAN { email: 1 }","durationMillis":7469113720208097282}}`, "object"},
 		{"B", `{"t":{"$date":"2024-05-01T10:00:01.000+00:00"},"s":"I","c":"COMMAND","id":51803,"ctx":"conn8","msg":"Slow query","attr":{"type":"command","ns":"crm.people","command":{"aggregate":"people","pipeline":[{"$search":{"index":"default","text":{"query":"secret words","path":"bio"}}},{"$match":{"age":{"$in":[1,2.50,"x"]}}}],"cursor":{},"$db":"crm"},"remote":"10.1.2.3:5000"}}`, "object"},
-		{"O", `{"t":{"$date":"2024-05-01T10:00:02.000+00:00"},"s":"I","c":"NETWORK","id":22943,"ctx":"listener","msg":"Connection accepted","attr":{"remote":"192.168.1.5:51234","uuid":{"uuid":{"$uuid":"0d6c2a1e-7a0c-4f5e-9c3b-0a1b2c3d4e5f"}},"connectionId":12,"connectionCount":3}}`, "object"},
+		{"O", `{"t":{"$date":"2024-05-01T10:00:02.000+00:00"},"s":"I","c":"NETWORK","id":22943,"ctx":"listener","msg":"Connection accepted","attr":{"remote":"192.168.1.5:51234","uuid":{"uuid":{"$uuid":"0d6c2a1e-7a0c-4f5e-9c3b-0a1b2c3d4e5f"}},"client 😀 名前":"mood 😀 café 𠀀 𝒜","connectionId":12,"connectionCount":3}}`, "object"},
 		// two lines that share literals across classes and names across roles: any state carried from one line
 		// to the next (value caches, name tables) shows as a sequence whose output is not the concatenation
 		{"C", `{"t":{"$date":"2024-05-01T10:00:05.000+00:00"},"s":"I","c":"COMMAND","id":51803,"ctx":"conn9","msg":"Slow query","attr":{"type":"command","ns":"shop.$cmd","command":{"update":"orders","updates":[{"q":{"ref":"5f1e2d3c4b5a69788796a5ff","when":"2031-07-09T11:22:33.456Z","mail":"alice@example.com"},"u":{"$set":{"orders":"cmd","blob":"QUJDREVGRw=="}}}],"$db":"shop"},"durationMillis":3}}`, "object"},
@@ -393,6 +393,9 @@ func c06CLI(c *Ctx, alpha []c06Sym, maxLen int, fl Flags) {
 		}
 		args = append(args, fl.CLIArgs("")...)
 		r.Args = args
+		if preExisting {
+			r.Env = []string{"LANG=en_US.UTF-8", "LC_CTYPE=en_US.UTF-8"} // the first repetition runs under LANG=C
+		}
 		res, err := runCLI(r)
 		if err != nil {
 			return "", "spawn: " + err.Error()
